@@ -7,7 +7,7 @@ import (
 
 // ---------------------------------------------------------------- families
 
-const nMergeVals = 12
+const nMergeVals = 13
 
 // mergeVal: the focus value set V of DESIGN.md §4.2 (null at member, element and member-of-object-in-array positions, type changes, nesting).
 func mergeVal(i int, p string) *JV {
@@ -38,11 +38,13 @@ func mergeVal(i int, p string) *JV {
 		return jObj().with("k", jNull()).with("j", jNull()).with("i", n(0))
 	case 11:
 		return jObj().with("k", jNull()).with("j", jObj().with("i", jNull()).with("h", n(0))).with("g", n(1))
+	case 12:
+		return symEscStr(p + "e0")
 	}
 	panic("mergeVal")
 }
 
-const nDocVals = 6
+const nDocVals = 7
 
 // docVal: the document-side focus set W.
 func docVal(i int, p string) *JV {
@@ -60,6 +62,8 @@ func docVal(i int, p string) *JV {
 		return jArr(n(0))
 	case 5:
 		return jNull()
+	case 6:
+		return symEscStr(p + "e0")
 	}
 	panic("docVal")
 }
@@ -333,7 +337,7 @@ func minimalPatch(P, A, B *JV) bool {
 	return acc
 }
 
-const nCreateVals = 16
+const nCreateVals = 18
 
 func createVal(i int, p string) *JV {
 	n := func(k int) *JV { return symNum(p + "n" + itoa(k)) }
@@ -370,6 +374,10 @@ func createVal(i int, p string) *JV {
 		return jArr(jObj().with("k", jObj().with("i", n(0))))
 	case 15:
 		return jArr(jObj().with("k", jNull()))
+	case 16:
+		return symEscStr(p + "e0")
+	case 17:
+		return jArr(symEscStr(p + "e0"))
 	}
 	panic("createVal")
 }
